@@ -730,7 +730,11 @@ class World:
         if not self.data_ok(i):
             self.v("C02", "data-missing", "client %d accepted before all requested data arrived: %r" % (cid, ln))
         out = [s for s, a in i.awaiting.items() if a]
-        if out and not i.expired and not i.opaque:
+        if i.opaque:
+            # live across a change of the service table: a service that is no longer configured may have been
+            # written off with its entry (open, see reconfig); one that still is - whatever was edited - still owes
+            out = [s for s in out if s in self.services()]
+        if out and not i.expired:
             self.v("C02", "query-outstanding", "client %d accepted while %s still owe(s) an answer and no timeout expired: %r" % (cid, out, ln))
         if (self.blocked_by_bang(i) or ("!" in i.modes and cmd == "D" and self.has_xquery())) and not i.opaque:
             # (+! and reported without an account: whatever a service vouched, the client holds no stamp)
